@@ -20,6 +20,27 @@ alone moved through box_set(scale=True/False), Box.set and the origin setter, th
 coordinates, positions rewritten or shifted through every public setter, the operations of this property called
 before with other arguments, the System re-built from its parts, another System operated on).  The unit cell the
 result is compared with is an independent numpy model carried through the same history.
+
+Generator classes carried over from the other properties after the fourth seeded round (helpers in pbt/gens_c04.py):
+  A  ledger      every answer (systems, rotations) is kept and compared bit for bit after every later call - the same call again, the
+                 same call on another system of the same shape, other operations (labels post, post_again, post_twin, post_other)
+  B  caller      the caller overwrites in place what it handed in (vector-set / tol / smallshift objects, positions, properties, the
+                 cell through box_set) and what it got out (positions, properties, box, rotation) and calls again: the other side must
+                 not move, the new answer is judged by the same oracle (post_mut_args, post_mut_in, post_mut_out, post_rejudged);
+                 argument objects must be what they were after every call
+  C  dtypes      vector sets as int8 / int16 / unsigned / big-endian / bool / float32 / float16 arrays, multipliers as numpy scalars of
+                 every width, whole-number cells as int16 / int32 / unsigned / big-endian arrays, big-endian float arrays, tags at the
+                 limits of their integer dtype, float32 / big-endian vector property (form_narrow, arg_narrow, pos_narrowint, props_dtype)
+  D  units       the same case after atomman.unitconvert.reset_units(other configuration), lengths x numericalunits.angstrom, after the
+                 same case under the default configuration (units, units_pre); always restored
+  E  threshold   cells 1e-12 .. 1e-3 from a more symmetric family (almost), atoms 1e-12 .. 1e-3 from a face of the unit cell (edge) and
+                 down to 1e-12 from a face of the new cell (nearface), vector sets with floating-point noise (form_noisy), entries 1e-4 off
+                 an integer still refused (nonint_near)
+  F  decades     the per-atom vector property spans 17 decades (vec_decades): the only array of this property whose rows are free in size
+  G  structured  cells with exactly permuted / reversed Cartesian axes, relabelled vectors, lower / upper triangular with negative entries
+                 (sym, sym_tri_neg, sym_upper), origins at exact half lattice vectors (origin_half), triangular vector sets (uvws_tri_neg)
+  H  options     clause `options`: every operation x every option value as ordered pairs / triples in one process, enumerated; and
+                 return_transform / check_family / smallshift sampled in `centering`
 """
 import itertools
 
@@ -59,7 +80,20 @@ RULE = ("unit cells of all seven crystal families (lattice parameters 2-22 A, op
         "LENGTH SCALE: every length of a case (cell vectors, hence box origin and Cartesian positions, and the documented length "
         "arguments atol / smallshift of conventional_to_primitive) is multiplied by 10^k: k = 0 in half of the cases, k = -10 (an "
         "angstrom-sized cell in SI metres) in one in six, otherwise k in -12..6 (whole-number cells: 0..6); float16 / float32 position "
-        "arrays only where the scaled values stay inside the range of the type; all oracle tolerances are relative to the cell")
+        "arrays only where the scaled values stay inside the range of the type; all oracle tolerances are relative to the cell.  "
+        "CLASSES added after the fourth seeded round (module docstring, gens_c04.py): one cell in nine lies 1e-12 .. 1e-3 (relative lengths, "
+        "radians) from its family (1e-12 .. 1e-9 where a tolerance of the code decides the family), one in eight has its Cartesian axes "
+        "exactly permuted / reversed and its vectors relabelled (a third lower triangular with negative diagonal, a third upper triangular), "
+        "one in twelve has atoms 1e-12 .. 1e-3 from a face of the unit cell, one in sixteen its origin at exact half lattice vectors; tags "
+        "sit at the limits of int8 .. int64 / unsigned / big-endian dtypes and the vector property is float32 / big-endian / spread over 17 "
+        "decades in a third of the cases; vector sets also as narrow / unsigned / big-endian / bool / float16 / float32 arrays and with "
+        "floating-point noise, triangular with negative entries; multipliers as numpy scalars of every width; whole cells as int8 .. int32 / "
+        "unsigned / big-endian arrays.  One case in four is followed by 1-2 operations after the judged call (again / twin / other / mut_args "
+        "/ mut_in / mut_out, see gens_c04.POST_KINDS) with every answer in a bit-for-bit ledger; one in sixteen runs under another working-"
+        "unit configuration (named units, integer seed, SI), two thirds of those after the same case under the default configuration.  "
+        "options: all ordered pairs of 34 conversion calls (9 + 8 settings x return_transform) and of 15 rotate / supersize calls "
+        "(tol forms x return_transform x 3x3 / 3x4, multiplier forms), a ninth of the mixed pairs (thorough: all pairs and all triples of the "
+        "17 conversions with return_transform) on fixed two-atom fixtures")
 ASSUMPTIONS = ["numpy linear algebra is correct",
                "per-atom property values are compared exactly (they are copied, never computed)",
                "the translation convention of rotate for a box whose origin is not (0,0,0) is not fixed by the property: "
@@ -78,7 +112,16 @@ ASSUMPTIONS = ["numpy linear algebra is correct",
                "coordinates (atoms_prop('pos', scale=True)) and is dimensionless - never scaled; conventional_to_primitive `atol` "
                "('absolute tolerance ... atoms in the expected lattice positions') is compared with Cartesian distances and lattice "
                "parameters and `smallshift` is added to atoms.pos - both are lengths in working units with absolute documented defaults "
-               "(1e-8, 0.001) and are passed multiplied by the length unit of the cell; primitive_to_conventional takes no tolerance"]
+               "(1e-8, 0.001) and are passed multiplied by the length unit of the cell; primitive_to_conventional takes no tolerance",
+               "Box sets every vector component below 1e-9 of the largest one to zero (its vects setter): cells next to a more symmetric "
+               "family are handed over with such components already zero (threshold 2e-9), and the volume of a re-oriented cell of that "
+               "class is allowed the first-order effect of that clean-up, 4e-9 cond(new cell)",
+               "two calls with equal arguments on an unchanged system return equal values (dtype, shape, value; not necessarily equal "
+               "bits of -0.0), in different objects that share no memory with one another or with the system",
+               "numericalunits.reset_units / atomman.unitconvert.reset_units set the size of the angstrom as documented; the case is "
+               "re-expressed with my own product length x numericalunits.angstrom",
+               "a per-atom property keeps its values whatever its dtype (tags at the limits of their integer type, float32 vectors): "
+               "values are compared exactly, dtypes are not demanded"]
 LEVEL_TEXT = ("Random unit cells of every crystal family with face / rational / generic / near-face atoms, all multiplier "
               "forms up to 60 replicas, integer re-orientation matrices up to index 4 and |det| 24 of both handedness "
               "(3x4 for hexagonal), all eight centering settings in both conversion directions; each result is mapped "
@@ -86,8 +129,12 @@ LEVEL_TEXT = ("Random unit cells of every crystal family with face / rational / 
               "(lists, tuples, integer / float32 / float16 / non-contiguous / read-only arrays, scale=True, safecopy) and after "
               "1-3 earlier operations on the same object or in the same process (origin / cell / positions changed through "
               "every public setter, derived quantities read, earlier calls, rebuilds), against a numpy model of the history.  "
-              "Half of the cases are expressed in another length unit (all lengths x 10^k, k in -12..6, SI metres favoured).")
-TECHNIQUE = "lattice map-back with multiplicity and coincidence counting (independent numpy reference), proper-rotation and LAMMPS-form checks"
+              "Half of the cases are expressed in another length unit (all lengths x 10^k, k in -12..6, SI metres favoured).  "
+              "Answers are kept in a bit-for-bit ledger through later calls and caller-side overwriting of inputs and outputs; narrow / "
+              "unsigned / big-endian / bool / reduced-precision argument and storage dtypes; other working-unit configurations; cells, "
+              "atoms and vector sets 1e-12 .. 1e-3 from their special cases; exactly permuted / reversed / triangular cells; all option "
+              "values as enumerated ordered pairs.")
+TECHNIQUE = "lattice map-back with multiplicity and coincidence counting (independent numpy reference), proper-rotation and LAMMPS-form checks, bit-for-bit result ledger"
 WALL = {'quick': 75, 'thorough': 600}
 
 EPS = 2.3e-16
@@ -1825,7 +1872,7 @@ def centering_cases(draw):
     basis = draw(_int10) < 7          # True: default check_basis (needs an atom on the lattice site)
     # check_family (class H: sampled here, enumerated in the clause `options`): with the default True the family has to admit the
     # setting; with False "non-conventional cells" of any family are converted
-    cf = not (basis and draw(_int10) < 3)
+    cf = not (basis and draw(_int10) in (2, 5, 8))
     if direction == 'c2p2c':
         fam = draw(st.sampled_from(SETTING_FAMILIES[setting])) if (basis and cf) else draw(_family)
         u = draw(ucells(family=fam, far_origin=False, allow_lh=False, max_atoms=3, sensitive=basis and cf, edge_min=6))
@@ -1855,7 +1902,7 @@ def centering_cases(draw):
         tgen = setting in ('t1', 't2') and basis and draw(_int10) < 4
     forms, hist = forms_and_history(draw, u, 'noorigin' if (direction == 'p2c2p' and basis) else 'rigid', lowprec=False)
     case = {'ucell': u, 'setting': setting, 'direction': direction, 'basis': basis, 'generic_t': bool(tgen),
-            'entry': draw(_entry), 'forms': forms, 'hist': hist, 'cf': bool(cf), 'rt': draw(_int10) >= 2, 'ss': draw(_ssform)}
+            'entry': draw(_entry), 'forms': forms, 'hist': hist, 'cf': bool(cf), 'rt': draw(_int10) not in (3, 8), 'ss': draw(_ssform)}
     case.update(G4.extras(draw, u, 'pure' if post_level(forms) == 'pure' else 'rigid'))
     if direction == 'c2p2c':
         case['props'] = dict(case['props'], group=len(CENTERING[setting]))      # the centering copies of a motif atom carry one vector
@@ -2287,28 +2334,36 @@ def oracle_options(case):
     return labels
 
 
+_POST = {'post': 0.1, 'post_mut_in': 0.03, 'post_mut_out': 0.03, 'post_twin': 0.015, 'post_again': 0.015, 'post_rejudged': 0.03}
+_CELLS = {'almost': 0.045, 'edge': 0.04, 'sym': 0.04, 'sym_tri_neg': 0.012, 'origin_half': 0.02, 'props_dtype': 0.15, 'vec_decades': 0.05}
+
 CLAUSES = [
-    Clause('supersize', oracle_supersize, supersize_cases, quick=6200, thorough=130000,
-           min_share={'nt': 0.3, 'onface': 0.3, 'two_sided': 0.12, 'arg_np': 0.08, 'mults_distinct': 0.15, 'origin_small': 0.12,
-                      'multitype': 0.3, 'hist': 0.18, 'hist_origin': 0.06, 'forms': 0.28, 'whole': 0.05,
-                      'scaled': 0.22, 'scale_1': 0.22, 'scale_si': 0.055, 'scale_small': 0.15, 'scale_big': 0.08},
-           desc='supersize: count, box, origin, volume; every replica maps back onto one original atom with its type/tag/vector, each original N times, no coincidences; all input forms, after histories'),
-    Clause('rotate', oracle_rotate, rotate_cases, quick=17500, thorough=330000,
-           min_share={'nt': 0.4, 'onface': 0.3, 'detneg': 0.2, 'hex4': 0.05, 'bigdet': 0.2, 'nearface': 0.05,
-                      'origin_small': 0.12, 'lefthanded': 0.03, 'rigid_rot': 0.08, 'multitype': 0.3, 'form_float': 0.06,
-                      'hist': 0.18, 'hist_origin': 0.06, 'forms': 0.27, 'whole': 0.04, 'opt': 0.15,
-                      'scaled': 0.22, 'scale_1': 0.22, 'scale_si': 0.06, 'scale_small': 0.15, 'scale_big': 0.08},
-           desc='rotate: proper rotation returned, box = T.(uvws.vects), LAMMPS form, atoms inside, count/volume x|det|, map-back through T with multiplicity |det|; all input forms and options, after histories'),
-    Clause('refusal', oracle_refusal, refusal_cases, quick=2300, thorough=32000,
+    Clause('supersize', oracle_supersize, supersize_cases, quick=5600, thorough=130000,
+           min_share=dict({'nt': 0.3, 'onface': 0.3, 'two_sided': 0.12, 'arg_np': 0.08, 'mults_distinct': 0.15, 'origin_small': 0.12,
+                           'multitype': 0.3, 'hist': 0.18, 'hist_origin': 0.06, 'forms': 0.28, 'whole': 0.05,
+                           'scaled': 0.22, 'scale_1': 0.22, 'scale_si': 0.055, 'scale_small': 0.15, 'scale_big': 0.08,
+                           'units': 0.025, 'arg_narrow': 0.18, 'pos_narrowint': 0.02}, **dict(_POST, **_CELLS)),
+           desc='supersize: count, box, origin, volume; every replica maps back onto one original atom with its type/tag/vector, each original N times, no coincidences; all input forms and dtypes, after histories, under other working units; answers kept in a ledger while the caller overwrites what it handed in / got out and calls again'),
+    Clause('rotate', oracle_rotate, rotate_cases, quick=15500, thorough=330000,
+           min_share=dict({'nt': 0.4, 'onface': 0.3, 'detneg': 0.2, 'hex4': 0.05, 'bigdet': 0.2, 'nearface': 0.05,
+                           'origin_small': 0.12, 'lefthanded': 0.03, 'rigid_rot': 0.08, 'multitype': 0.3, 'form_float': 0.06,
+                           'hist': 0.18, 'hist_origin': 0.06, 'forms': 0.27, 'whole': 0.04, 'opt': 0.15,
+                           'scaled': 0.22, 'scale_1': 0.22, 'scale_si': 0.06, 'scale_small': 0.15, 'scale_big': 0.08,
+                           'units': 0.025, 'form_narrow': 0.06, 'form_noisy': 0.015, 'uvws_tri_neg': 0.05, 'post_mut_args_live': 0.012},
+                          **dict(_POST, **_CELLS)),
+           desc='rotate: proper rotation returned, box = T.(uvws.vects), LAMMPS form, atoms inside, count/volume x|det|, map-back through T with multiplicity |det|; all input forms, dtypes and options, after histories, under other working units; answers kept in a ledger while the caller overwrites what it handed in / got out and calls again'),
+    Clause('refusal', oracle_refusal, refusal_cases, quick=2200, thorough=32000,
            min_share={'nt': 0.9, 'coplanar': 0.08, 'nonint': 0.09, 'parallel': 0.05, 'shape': 0.05, 'hist': 0.2, 'forms': 0.22,
-                      'scaled': 0.2, 'scale_1': 0.22, 'scale_si': 0.05, 'scale_small': 0.15, 'scale_big': 0.06},
-           desc='coplanar / parallel / non-integer / wrong-shape vector sets raise the documented ValueError and leave the system untouched (whatever its history)'),
-    Clause('centering', oracle_centering, centering_cases, quick=5700, thorough=110000,
-           min_share={'nt': 0.45, 'c2p2c': 0.3, 'p2c2p': 0.15, 'setting_t1': 0.07, 'setting_t2': 0.07, 'setting_f': 0.08,
-                      'nobasis': 0.12, 'multitype': 0.3, 'hist': 0.15, 'hist_origin': 0.04, 'forms': 0.24, 'entry_function': 0.09,
-                      'scaled': 0.22, 'scale_1': 0.22, 'scale_si': 0.06, 'scale_small': 0.16, 'scale_big': 0.06},
+                      'scaled': 0.2, 'scale_1': 0.22, 'scale_si': 0.05, 'scale_small': 0.15, 'scale_big': 0.06,
+                      'units': 0.03, 'almost': 0.05, 'sym': 0.04, 'nonint_near': 0.018, 'props_dtype': 0.15},
+           desc='coplanar / parallel / non-integer (also 1e-4 off an integer) / wrong-shape vector sets raise the documented ValueError and leave the system and the argument untouched (whatever its history, under other working units)'),
+    Clause('centering', oracle_centering, centering_cases, quick=5000, thorough=110000,
+           min_share=dict({'nt': 0.45, 'c2p2c': 0.3, 'p2c2p': 0.15, 'setting_t1': 0.07, 'setting_t2': 0.07, 'setting_f': 0.08,
+                           'nobasis': 0.12, 'multitype': 0.3, 'hist': 0.15, 'hist_origin': 0.04, 'forms': 0.24, 'entry_function': 0.09,
+                           'scaled': 0.22, 'scale_1': 0.22, 'scale_si': 0.06, 'scale_small': 0.16, 'scale_big': 0.06,
+                           'units': 0.028, 'opt_smallshift': 0.12, 'opt_no_transform': 0.05, 'opt_no_check_family': 0.08}, **dict(_POST, **dict(_CELLS, sym_tri_neg=0.008, origin_half=0.015))),
            max_share={'refusal': 0.05},
-           desc='conventional<->primitive conversions for p,a,b,c,i,f,t1,t2: same crystal, primitive lattice = centred lattice, N/k atoms, and the two conversions undo one another; all input forms, both entry points, after histories'),
-    Clause('options', oracle_options, enumerate=options_cases,
+           desc='conventional<->primitive conversions for p,a,b,c,i,f,t1,t2: same crystal, primitive lattice = centred lattice, N/k atoms, and the two conversions undo one another; all input forms, both entry points, every option, after histories, under other working units; answers kept in a ledger while the caller overwrites what it handed in / got out and calls again'),
+    Clause('options', oracle_options, enumerate=options_cases, min_share={'nt': 0.45, 'no_transform': 0.1, 'cross_clause': 0.045},
            desc='every operation with every value of its options (9+8 settings x return_transform, rotate tol forms x return_transform x 3x3 / 3x4, supersize multiplier forms) as ordered pairs (thorough: triples of conversions) in one process: same answer before and after, earlier answers bit for bit what they were, then the full oracle of the clause'),
 ]
